@@ -192,8 +192,8 @@ func (c *Ctx) Fail(sig, what string, witness map[string]any) {
 // decoder disagree, generator produced something outside the domain). It makes
 // the run inconclusive; it is never a VIOLATION.
 func (c *Ctx) HarnessBug(what string) {
-	if len(c.a.harness) < 20 {
-		c.a.harness = append(c.a.harness, fmt.Sprintf("%s[%d]: %s", c.Stratum, c.Index, what))
+	if len(c.a.harness) < 5 {
+		c.a.harness = append(c.a.harness, Trunc(fmt.Sprintf("%s[%d]: %s", c.Stratum, c.Index, what), 700))
 	}
 }
 
